@@ -674,3 +674,106 @@ def _may_be_empty(fnode, S, depth):
         if depth == 2 and isinstance(n, ast.Call) and isinstance(n.func, ast.Attribute) and n.func.attr in ("append", "insert") and isinstance(n.func.value, ast.Name) and n.func.value.id == S and n.args and _is_empty_list(n.args[-1]):
             return True
     return False
+
+
+# --------------------------------------------------------------------------------------
+# statement-level inlining of small lexical helpers (so that path rules see `a, b = helper(a, b)` as the helper's
+# own statements)
+def inline_lexical_helpers(fnode, depth=2):
+    """A structural copy of function `fnode` in which statements of the forms `helper(args)`, `x = helper(args)` and
+    `x, y = helper(args)` - helper being a function defined lexically around the statement (enclosing function or
+    module) whose body is straight-line code ending in at most one `return` - are replaced by the helper's statements
+    with parameters substituted and helper locals renamed.  The copy keeps line numbers of the call statement."""
+    from sa.cfg import _clone, _lookup_def, _set_parents
+
+    counter = [0]
+
+    def straight(h):
+        body = [st for st in h.body if not (isinstance(st, ast.Expr) and isinstance(st.value, ast.Constant))]
+        if not body:
+            return None
+        for st in body[:-1]:
+            if not isinstance(st, (ast.Assign, ast.AugAssign, ast.Expr, ast.For, ast.If)) or any(isinstance(x, (ast.Return, ast.Yield, ast.YieldFrom)) for x in ast.walk(st)):
+                return None
+        last = body[-1]
+        if isinstance(last, ast.Return):
+            return body[:-1], last.value
+        if any(isinstance(x, (ast.Return, ast.Yield, ast.YieldFrom)) for x in ast.walk(last)):
+            return None
+        return body, None
+
+    def expand_block(stmts, d):
+        out = []
+        for st in stmts:
+            call = None
+            if isinstance(st, ast.Expr) and isinstance(st.value, ast.Call):
+                call = st.value
+            elif isinstance(st, ast.Assign) and isinstance(st.value, ast.Call):
+                call = st.value
+            h = _lookup_def(call) if call is not None and d > 0 else None
+            sb = straight(h) if h is not None and h is not fnode and not h.decorator_list and not h.args.vararg and not h.args.kwarg else None
+            if sb is None or any(isinstance(a, ast.Starred) for a in call.args) or any(k.arg is None for k in call.keywords):
+                # recurse into compound statements
+                for fld in ("body", "orelse", "finalbody"):
+                    sub = getattr(st, fld, None)
+                    if isinstance(sub, list) and sub and isinstance(sub[0], ast.stmt):
+                        setattr(st, fld, expand_block(sub, d))
+                for hd in getattr(st, "handlers", []) or []:
+                    hd.body = expand_block(hd.body, d)
+                out.append(st)
+                continue
+            body, retval = sb
+            params = [a.arg for a in h.args.posonlyargs + h.args.args]
+            mapping = {}
+            for i, a in enumerate(call.args):
+                if i < len(params):
+                    mapping[params[i]] = a
+            for k in call.keywords:
+                mapping[k.arg] = k.value
+            for prm, dflt in zip(params[len(params) - len(h.args.defaults):], h.args.defaults):
+                mapping.setdefault(prm, dflt)
+            if set(params) - set(mapping):
+                out.append(st)
+                continue
+            counter[0] += 1
+            stored = {x.id for b in body for x in ast.walk(b) if isinstance(x, ast.Name) and isinstance(x.ctx, ast.Store)} - set(params)
+            # a parameter that the helper re-binds becomes a fresh local initialised with the argument
+            rebound = {x.id for b in body for x in ast.walk(b) if isinstance(x, ast.Name) and isinstance(x.ctx, ast.Store)} & set(params)
+            ren = {nm: f"{nm}__h{counter[0]}" for nm in stored | rebound}
+            pre = []
+            for nm in sorted(rebound):
+                a_ = ast.Assign(targets=[ast.Name(id=ren[nm], ctx=ast.Store())], value=_clone(mapping[nm]))
+                pre.append(a_)
+
+            class S(ast.NodeTransformer):
+                def visit_Name(self, n):
+                    if n.id in ren:
+                        return ast.copy_location(ast.Name(id=ren[n.id], ctx=n.ctx), n)
+                    if isinstance(n.ctx, ast.Load) and n.id in mapping:
+                        return ast.copy_location(_clone(mapping[n.id]), n)
+                    return n
+
+            new = pre + [S().visit(_clone(b)) for b in body]
+            if isinstance(st, ast.Assign):
+                rv = S().visit(_clone(retval)) if retval is not None else ast.Constant(value=None)
+                new.append(ast.Assign(targets=[_clone(t) for t in st.targets], value=rv))
+            for nb in new:
+                for x in ast.walk(nb):
+                    x.lineno = getattr(st, "lineno", 1)
+                    x.col_offset = getattr(st, "col_offset", 0)
+                    x.end_lineno = getattr(st, "end_lineno", x.lineno)
+                    x.end_col_offset = getattr(st, "end_col_offset", 0)
+            tmp = ast.Module(body=new, type_ignores=[])
+            _set_parents(tmp)
+            for nb in new:
+                nb._parent = getattr(st, "_parent", None)
+            out += expand_block(new, d - 1)
+        return out
+
+    new_f = _clone(fnode)
+    _set_parents(new_f)
+    new_f._parent = getattr(fnode, "_parent", None)
+    new_f.body = expand_block(new_f.body, depth)
+    _set_parents(new_f)
+    new_f._parent = getattr(fnode, "_parent", None)
+    return new_f
